@@ -72,7 +72,97 @@ def split_key(k):
   return m.group(1), m.group(2).lower()
 
 
+def tune_separation(ctx, rule):
+  """Location-independent: "a tunebook splits into tunes at blank lines".  The line structure of the text must be read with
+  str.splitlines() (which knows \\n, \\r\\n and \\r) and a separator is a line that is empty *after stripping*; cutting the text
+  at a literal newline sequence misses separator lines that hold blanks or a tab and every tunebook with Windows line ends."""
+  fi = ctx.func('abc_parser:parse_abc_tunebook')
+  fn = fi.node
+  cons = 'tunes are separated by lines that are empty after stripping'
+  cuts = []
+  for c in ast.walk(fn):
+    if isinstance(c, ast.Call) and isinstance(c.func, ast.Attribute) and c.func.attr in ('split', 'rsplit', 'partition'):
+      seps = [a for a in c.args if isinstance(a, ast.Constant) and isinstance(a.value, str) and '\n' in a.value]
+      if seps:
+        cuts.append((c, seps[0].value))
+  if cuts:
+    c, sep = cuts[0]
+    ctx.ob(rule, fi, c, False, '%s cuts the text at the literal %r: a separator line that holds blanks or a tab, or any tunebook with \\r\\n line ends, no longer separates - '
+           'neighbouring tunes are glued into one' % (norm_text(c)[:60], sep), construct=cons, definite=True)
+    return
+  lines = [c for c in ast.walk(fn) if isinstance(c, ast.Call) and isinstance(c.func, ast.Attribute) and c.func.attr == 'splitlines']
+  strips = [c for c in ast.walk(fn) if isinstance(c, ast.Call) and isinstance(c.func, ast.Attribute) and c.func.attr == 'strip' and not c.args]
+  if lines and strips:
+    ctx.ob(rule, fi, lines[0], True, 'the text is read line by line (splitlines) and lines are stripped before the emptiness test', construct=cons)
+  else:
+    why = 'cannot classify: how parse_abc_tunebook finds the blank lines is not recognised'
+    ctx.ob(rule, fi, fn, False, why, construct=cons, unknown=why)
+
+
+def bare_tempo_unit(ctx, ci, rule):
+  """Location-independent, path-wise: a tempo written as a bare number (Q:120) counts unit note lengths per minute - the unit note
+  length *in force where the field stands* (an L: field in the body changes it).  On the paths of _add_tempo taken when no beat
+  length was given, the stored qpm must read the current unit note length; reading an attribute that is only ever a copy of it
+  taken elsewhere (a snapshot that other methods do not refresh when they change the unit) is the located deviation."""
+  from sa import pathval, strscen
+  m = ci.methods.get('_add_tempo')
+  cons = 'a bare-number tempo is counted in the unit note length currently in force'
+  if m is None or len(m.params()) < 3:
+    why = 'cannot classify: ABCTune._add_tempo(tempo_unit, tempo_rate) not found'
+    ctx.ob(rule, ci, ci.node, False, why, construct=cons, unknown=why)
+    return
+  unit = m.params()[1]
+  CUR = 'self._current_unit_note_length'
+  try:
+    ps = pathval.paths(m.node.body, effects=True, opaque=True)
+  except pathval.PathError as e:
+    why = 'cannot classify: %s' % e
+    ctx.ob(rule, m, m.node, False, why, construct=cons, unknown=why)
+    return
+  n = 0
+  for conds, env, end in ps:
+    if strscen.tv_all(conds, {unit: None}) is False:
+      continue
+    qpm = next((v for k, v in env.items() if k.endswith('.qpm')), None)
+    calls = env.get(pathval.CALLS)
+    if qpm is None and calls is not None:
+      for c in calls.elts:
+        for k in c.keywords:
+          if k.arg == 'qpm':
+            qpm = k.value
+    if qpm is None:
+      continue
+    n += 1
+    attrs = sorted(set(norm_text(x) for x in ast.walk(qpm) if isinstance(x, ast.Attribute) and isinstance(x.value, ast.Name) and x.value.id == 'self'))
+    if CUR in attrs:
+      ctx.ob(rule, m, m.node, True, 'without a beat length the qpm is computed from %s' % CUR, construct=cons)
+      continue
+    stale = None
+    for a in attrs:
+      nm = a.split('.', 1)[1]
+      vals = [(mm, st.value) for mm in ci.methods.values() for st in U.walk_stmts(mm.node) if isinstance(st, ast.Assign) and any(norm_text(t) == a for t in st.targets)]
+      copies = [mm for mm, v in vals if norm_text(v) == CUR]
+      if copies and all(norm_text(v) == CUR or (isinstance(v, ast.Constant) and v.value is None) for _mm, v in vals):
+        changers = [mm.name for mm in ci.methods.values() if mm not in copies and
+                    any(isinstance(st, ast.Assign) and any(norm_text(t) == CUR for t in st.targets) for st in U.walk_stmts(mm.node)) and
+                    not any(isinstance(st, ast.Assign) and any(norm_text(t) == a for t in st.targets) for st in U.walk_stmts(mm.node))]
+        if changers:
+          stale = (a, copies[0].name, changers)
+    if stale:
+      ctx.ob(rule, m, m.node, False, 'without a beat length the qpm is computed from %s, a copy of the unit note length taken in %s; %s change%s the unit note length afterwards '
+             'without refreshing the copy, so a bare Q: after an L: change in the body is counted in the old unit' % (
+                 stale[0], stale[1], ', '.join(stale[2]), 's' if len(stale[2]) == 1 else ''), construct=cons, definite=True)
+    else:
+      why = 'cannot classify: without a beat length the qpm %s does not read %s' % (norm_text(qpm)[:80], CUR)
+      ctx.ob(rule, m, m.node, False, why, construct=cons, unknown=why)
+  if n == 0:
+    why = 'cannot classify: no path of _add_tempo stores a qpm when no beat length is given'
+    ctx.ob(rule, m, m.node, False, why, construct=cons, unknown=why)
+
+
 def run(ctx):
+  tune_separation(ctx, 'TUNES/blank-line-separation')
+  bare_tempo_unit(ctx, ctx.cls('abc_parser:ABCTune'), 'TEMPO/bare-unit-current')
   fd = fold.Folder(ctx.P, ctx.S)
   ci = ctx.cls('abc_parser:ABCTune')
   cc = fd.class_consts(ci)
